@@ -135,7 +135,13 @@ def evaluate(seed_dir, pids):
         for p in pids:
             keys, inc = got[p]
             bkeys, binc = basel[p]
-            new = sorted(keys - bkeys)
+            # a violation the base tree already has is not attributed to the seed; keys are compared
+            # without their function field (a refactoring may move the construct into a helper)
+            def _nofn(k):
+                parts = k.split('|')
+                return '|'.join(parts[:2] + parts[3:]) if len(parts) >= 4 else k
+            bset = {_nofn(k) for k in bkeys}
+            new = sorted(k for k in keys if _nofn(k) not in bset)
             if new:
                 v = 'VIOLATION'
             elif inc and not binc:
